@@ -45,7 +45,9 @@ def palette():
     ]
     pats = [P(rr.pr(rr.normalise(t)), rr.normalise(t)) for t in pats]
     lits = [LIT('if', 'if'), LIT('i', 'i'), LIT('in', 'in'), LIT('a', 'a'), LIT('ab', 'ab'), LIT('+', '+'), LIT('++', '++'), LIT('12', '12'),
-            LIT('\\"', '"'), LIT('\\\\', '\\'), LIT('a\\"b', 'a"b'), LIT('\\\\n', '\\n')]
+            LIT('\\"', '"'), LIT('\\\\', '\\'), LIT('a\\"b', 'a"b'), LIT('\\\\n', '\\n'),
+            # adjacent escapes
+            LIT('\\\\\\\\', '\\\\'), LIT('\\\\\\"', '\\"'), LIT('x\\\\\\\\y', 'x\\\\y'), LIT('\\"\\"', '""'), LIT('\\a\\b', 'ab2'[:0] + 'ab')]
     return lits, pats
 
 
